@@ -5,6 +5,7 @@ import TonicModel.Lemmas.ShutdownViews
 import TonicModel.Lemmas.ShutdownProgress
 import TonicModel.Lemmas.ShutdownTrack
 import TonicModel.Lemmas.ShutdownContract
+import TonicModel.Lemmas.ShutdownTimeout
 /-
 C13 — Graceful shutdown loses no accepted call.  Property theorems only; the invariant and its
 preservation are in `Lemmas/Shutdown`, the oracle in `Spec/Shutdown`.
@@ -13,7 +14,18 @@ preservation are in `Lemmas/Shutdown`, the oracle in `Spec/Shutdown`.
 `g` (a shutdown signal is given), `b` (the accept loop's `select!` is `biased;`, i.e. the repaired
 code) and `a` (`max_connection_age` set) by ANY finite interleaving of enabled steps — any number
 of connections (plain or through the TLS handshake set) and calls (all four shapes), any placement
-of the signal, any order of task steps.
+of the signal, any order of task steps.  The initial state is taken with ANY setting of
+`Server::timeout` (`Reachable.init t`), so every statement about `Reachable g b a` covers servers
+with and without a request timeout; time passing is the environment steps `ageTick` (a connection's
+`max_connection_age` sleep elapsed) and `deadlineTick` (a call's `GrpcTimeout` sleep elapsed).
+
+THE REQUEST TIMEOUT (tonic's own logic, `GrpcTimeout` in `MakeSvc`): it bounds the time to the
+response head only.  `C13_timeout_fires_only_before_head` (exact enabling condition of `expire`),
+`C13_timeout_never_cuts_a_streaming_body` (a call past its response head is ended only by its handler
+or by its caller, along ANY run, whatever timers are configured and fire),
+`C13_inflight_never_dropped` (every other step leaves every accepted call alone).  "True outcome"
+(`Spec.outcome`, `Call.outcome`) is the handler's outcome, or the server's CANCELLED "Timeout
+expired" for a call the timeout cut before its response head.
 
 WHAT IS PROVED ABOUT TONIC'S OWN LOGIC (serve_internal, serve_connection, Fuse, ServerIoStream):
   * (b) the biased accept loop takes nothing once the signal is ready — `C13_no_accept_after_signal`,
@@ -83,15 +95,15 @@ theorem C13_accept_disabled_after_signal {g a : Bool} {s : State} (h : Reachable
 
 /-- (b) on traces: no execution of the repaired server contains an accept after the signal —
 whatever happens before, between and after. -/
-theorem C13_no_accept_after_signal_trace (g a : Bool) (pre mid post : List Label) (c : Nat) :
-    run (init g true a) (pre ++ [.sigFire] ++ mid ++ [.loopAccept c] ++ post) = none := by
-  cases hrun : run (init g true a) (pre ++ [.sigFire] ++ mid ++ [.loopAccept c] ++ post) with
+theorem C13_no_accept_after_signal_trace (g a t : Bool) (pre mid post : List Label) (c : Nat) :
+    run (init g true a t) (pre ++ [.sigFire] ++ mid ++ [.loopAccept c] ++ post) = none := by
+  cases hrun : run (init g true a t) (pre ++ [.sigFire] ++ mid ++ [.loopAccept c] ++ post) with
   | none => rfl
   | some sEnd =>
     exfalso
     simp only [List.append_assoc] at hrun
     rw [run_append] at hrun
-    cases h1 : run (init g true a) pre with
+    cases h1 : run (init g true a t) pre with
     | none => simp [h1] at hrun
     | some s1 =>
       simp only [h1, Option.bind_some] at hrun
@@ -105,7 +117,7 @@ theorem C13_no_accept_after_signal_trace (g a : Bool) (pre mid post : List Label
         | none => simp [h3] at hrun
         | some s3 =>
           simp only [h3, Option.bind_some] at hrun
-          have hr1 : Reachable g true a s1 := reachable_run .init h1
+          have hr1 : Reachable g true a s1 := reachable_run (.init t) h1
           have hr2 : Reachable g true a s2 := reachable_run hr1 h2
           have hr3 : Reachable g true a s3 := reachable_run hr2 h3
           have hsig2 : s2.sigReady = true := by
@@ -132,7 +144,7 @@ theorem C13_no_accept_once_loop_over {g b a : Bool} {s s' : State} {ls : List La
 connection is offered afterwards, and the loop — both branches ready — takes the connection. -/
 theorem C13_no_accept_after_signal_fails :
     ∃ s, Reachable true false false s ∧ noAcceptAfterSignal (connViews s) = false := by
-  refine ⟨_, .step (.loopAccept 0) (.step .offer (.step .sigFire .init rfl) rfl) rfl, ?_⟩
+  refine ⟨_, .step (.loopAccept 0) (.step .offer (.step .sigFire (.init false) rfl) rfl) rfl, ?_⟩
   decide
 
 /-- (c) + (a) Whenever the serve future has resolved, every accepted connection has been closed
@@ -229,16 +241,20 @@ theorem C13_resolve_enabled_iff (s : State) :
     | true => exact this.2 (h3 hgr)
 
 /-- (a, step by step) FOLLOWS FROM hyper's contract (the guard `hyperConnDone` of `connBreak`)
-together with a fact about tonic that is checked here: none of tonic's own steps (accept loop,
+together with facts about tonic that are checked here: none of tonic's own steps (accept loop,
 `send`, `graceful_shutdown()` calls, dropping the watcher, resolving) removes a call or closes a
-connection — only `connBreak` closes, and only under hyper's guard.
-An accepted call is never dropped by the server: for every reachable state
+connection — only `connBreak` closes, and only under hyper's guard; and the one tonic step that
+does end a call, the request timeout (`expire`), is enabled only before the call's response head.
+An accepted call is never dropped by the server: for every reachable state — with or without
+`Server::timeout`, `max_connection_age` configured —
 and EVERY step out of it — the signal, the accept loop ending, `send`, a connection task seeing the
 signal or its age limit, graceful shutdown, the final GOAWAY, other connections closing, the serve
-future resolving, … — other than the caller's own `cancel` of this call or `peerDrop` of its
-connection: the call is still there and still accepted, its true outcome is unchanged, what was
-written to it is only extended, what the caller received has only grown; and if its connection is
-closed in the new state, the caller holds the complete outcome. -/
+future resolving, any timer elapsing or firing, … — other than the caller's own `cancel` of this
+call or `peerDrop` of its connection: the call is still there and still accepted, its handler's
+outcome is unchanged, what was written to it is only extended, what the caller received has only
+grown; it is cut by the request timeout in the new state only if it already was or this very step
+is its `expire` and it had not reached its response head; and if its connection is closed in the
+new state, the caller holds the complete true outcome (the handler's, if the call was not cut). -/
 theorem C13_inflight_never_dropped {g b a : Bool} {s s' : State} {l : Label} {c j : Nat}
     {cn : Conn} {k : Call} (h : Reachable g b a s) (hs : step s l = some s')
     (hc : s.conns[c]? = some cn) (hk : cn.calls[j]? = some k)
@@ -247,14 +263,106 @@ theorem C13_inflight_never_dropped {g b a : Bool} {s s' : State} {l : Label} {c 
     ∃ cn' k', s'.conns[c]? = some cn' ∧ cn'.calls[j]? = some k'
       ∧ k'.started = true ∧ k'.cancelled = false ∧ cn'.peerGone = false
       ∧ k'.plan = k.plan ∧ (∃ more, k'.sent = k.sent ++ more) ∧ k.recv ≤ k'.recv
-      ∧ (cn'.closed = true → (callView cn' k').got = (callView cn' k').plan) := by
-  obtain ⟨cn', k', h1, h2, h3, h4, h5, h6, h7, h8⟩ := step_keeps_call hs hc hk hcan hpg hl1 hl2
+      ∧ (k'.expired = true → k.expired = true ∨ (l = .expire c j ∧ k.headDone = false))
+      ∧ (cn'.closed = true → (callView cn' k').got = outcome (callView cn' k'))
+      ∧ (cn'.closed = true → k'.expired = false → (callView cn' k').got = k.plan.map toOut) := by
+  obtain ⟨cn', k', h1, h2, h3, h4, h5, h6, h7, h8, _, h10⟩ :=
+    step_keeps_call hs hc hk hcan hpg hl1 hl2
   have hg' := good_step (good_reachable h) hs
   have hcm := mem_of_getElem? h1
   have hkm := mem_of_getElem? h2
   have hk' := hg'.conns cn' hcm
-  refine ⟨cn', k', h1, h2, h5 hst, h3, h4, h6, h7, h8, fun hcl => ?_⟩
-  exact callView_complete (hk'.calls_ok k' hkm) (hk'.closed_calls hcl h4 k' hkm (h5 hst) h3)
+  refine ⟨cn', k', h1, h2, h5 hst, h3, h4, h6, h7, h8, fun he => ?_, fun hcl => ?_, fun hcl he => ?_⟩
+  · cases hke : k.expired with
+    | true => exact Or.inl rfl
+    | false =>
+      right
+      refine ⟨?_, by rcases h10 he with hx | hx; · simp [hke] at hx
+                     · exact hx⟩
+      -- only `expire c j` sets the flag of this call
+      by_cases hl3 : l = .expire c j
+      · exact hl3
+      · exfalso
+        obtain ⟨cn2, k2, a1, a2, a3⟩ := step_expired_eq hs hc hk hl3
+        rw [h1] at a1; cases a1
+        rw [h2] at a2; cases a2
+        rw [a3, hke] at he; cases he
+  · exact callView_complete (hk'.calls_ok k' hkm) (hk'.closed_calls hcl h4 k' hkm (h5 hst) h3)
+  · rw [callView_complete_plan (hk'.calls_ok k' hkm)
+      (hk'.closed_calls hcl h4 k' hkm (h5 hst) h3) he, h6]
+
+/-- THE REQUEST TIMEOUT FIRES ONLY BEFORE THE RESPONSE HEAD (tonic's own logic: `GrpcTimeout` wraps
+the handler's response future, not the response body).  The exact enabling condition of `expire`:
+a timeout is configured, the call's handler was invoked and its sleep has elapsed, the handler has
+not returned its response yet, the caller is still there, the call was not cut before.  In
+particular: never without `Server::timeout`, never for a call past its response head. -/
+theorem C13_timeout_fires_only_before_head (s : State) (c j : Nat) :
+    (step s (.expire c j)).isSome = true ↔
+      s.cfgTimeout = true ∧ ∃ cn k, s.conns[c]? = some cn ∧ cn.calls[j]? = some k
+        ∧ cn.closed = false ∧ k.started = true ∧ k.cancelled = false ∧ k.headersDeadline = true
+        ∧ k.headDone = false ∧ k.expired = false := by
+  simp only [step]
+  constructor
+  · intro h
+    split at h
+    · rename_i ht
+      obtain ⟨s', hs'⟩ := Option.isSome_iff_exists.1 h
+      obtain ⟨cn, k, hc, hk, hgd, _⟩ := updCall_some hs'
+      simp only [Bool.and_eq_true, Bool.not_eq_true'] at hgd
+      exact ⟨ht, cn, k, hc, hk, hgd.1.1.1.1.1, hgd.1.1.1.1.2, hgd.1.1.1.2, hgd.1.1.2, hgd.1.2, hgd.2⟩
+    · cases h
+  · rintro ⟨ht, cn, k, hc, hk, h1, h2, h3, h4, h5, h6⟩
+    simp only [ht, if_true]
+    exact updCall_isSome hc hk (by simp [h1, h2, h3, h4, h5, h6])
+
+/-- A CALL PAST ITS RESPONSE HEAD IS ENDED ONLY BY ITS HANDLER OR BY ITS CALLER — whatever timers
+are configured (`Server::timeout`, `max_connection_age`) and whenever they elapse or fire.
+Take any reachable state (any configuration), an accepted call in it whose handler has returned
+its response (`headDone`: the response head is out, the body may be streaming) and whose caller is
+still there, and ANY run from there — the server's own steps in any order, the shutdown signal,
+deadline and age ticks, `expire` attempts, other peers coming and going — in which this caller does
+not cancel the call or leave.  Then at the end the call is still there, not cancelled, NOT cut by
+the timeout; everything written to it is the handler's (written ++ still to come = the handler's
+outcome), what the caller holds has only grown, and if its connection has been closed the caller
+holds the handler's complete outcome.
+This is what a "drain timeout" taken from `Server::timeout` in `serve_connection` would violate:
+the model has no step that closes a connection under an unsettled call (`connBreak` is guarded by
+hyper's contract), and the only tonic step that ends a call is `expire`. -/
+theorem C13_timeout_never_cuts_a_streaming_body {g b a : Bool} {s s' : State} {ls : List Label}
+    {c j : Nat} {cn : Conn} {k : Call} (h : Reachable g b a s) (hrun : run s ls = some s')
+    (hc : s.conns[c]? = some cn) (hk : cn.calls[j]? = some k)
+    (hst : k.started = true) (hhead : k.headDone = true)
+    (hcan : k.cancelled = false) (hpg : cn.peerGone = false)
+    (hall : ∀ l ∈ ls, l ≠ .cancel c j ∧ l ≠ .peerDrop c) :
+    ∃ cn' k', s'.conns[c]? = some cn' ∧ cn'.calls[j]? = some k'
+      ∧ k'.started = true ∧ k'.cancelled = false ∧ cn'.peerGone = false
+      ∧ k'.expired = false ∧ k'.headDone = true
+      ∧ k'.plan = k.plan ∧ (∃ more, k'.sent = k.sent ++ more)
+      ∧ k'.sent ++ k'.todo.flatten = k.plan ∧ k.recv ≤ k'.recv
+      ∧ (callView cn' k').timedOut = false
+      ∧ (cn'.closed = true → (callView cn' k').got = k.plan.map toOut) := by
+  have hg := good_reachable h
+  have hko := (hg.conns cn (mem_of_getElem? hc)).calls_ok k (mem_of_getElem? hk)
+  have hne : k.expired = false := by
+    cases he : k.expired with
+    | false => rfl
+    | true => rw [hko.expired_nohead he] at hhead; cases hhead
+  obtain ⟨cn', k', h1, h2, h3, h4, h5, h6, h7, h8, h9, h10⟩ :=
+    run_keeps_call_of hall hrun (KeptIn.self hc hk hcan hpg)
+  have hg' := good_run hg hrun
+  have hk' := hg'.conns cn' (mem_of_getElem? h1)
+  have hkm := mem_of_getElem? h2
+  have hko' := hk'.calls_ok k' hkm
+  have hne' : k'.expired = false := by
+    cases he : k'.expired with
+    | false => rfl
+    | true =>
+      rcases h10 he with hx | hx
+      · rw [hne] at hx; cases hx
+      · rw [hhead] at hx; cases hx
+  refine ⟨cn', k', h1, h2, h5 hst, h3, h4, hne', h9 hhead, h6, h7, ?_, h8, hne', fun hcl => ?_⟩
+  · rw [hko'.plan_eq hne', h6]
+  · rw [callView_complete_plan hko' (hk'.closed_calls hcl h4 k' hkm (h5 hst) h3) hne', h6]
 
 /-- The server's own steps (tonic's tasks, hyper, handlers) cannot go on for ever: any run made
 of internal steps only is at most `weight s` long — from ANY state, for any interleaving. -/
@@ -278,8 +386,8 @@ over and every accepted connection is closed, the serve future resolves within `
 of its own — nothing else has to happen. -/
 theorem C13_resolve_enabled_once_all_closed {b a : Bool} {s : State} (h : Reachable true b a s)
     (hloop : s.loopRunning = false) (hclosed : allClosed (connViews s) = true) :
-    ∃ ls s', (∀ l ∈ ls, l.internal = true) ∧ run s ls = some s' ∧ s'.resolved = true
-      ∧ ls.length ≤ weight s := by
+    ∃ ls s', (∀ l ∈ ls, l.internal = true ∧ l.drains = true) ∧ run s ls = some s'
+      ∧ s'.resolved = true ∧ ls.length ≤ weight s := by
   have hac : AllClosed s := by
     intro cn hcn ha
     simp only [allClosed, connViews, List.all_eq_true, List.mem_map, Bool.or_eq_true,
@@ -292,18 +400,19 @@ theorem C13_resolve_enabled_once_all_closed {b a : Bool} {s : State} (h : Reacha
   · intro s l s' _ hp hi hs
     exact ⟨(step_cfg hs).1.trans hp.1, (step_mono hs).2.2.1 hp.2.1, allClosed_step hp.2.1 hp.2.2 hi hs⟩
   · intro s hg hp hr
-    exact progress hg hp.1 (Or.inr (Or.inr hp.2.1)) (unblocked_of_allClosed hg hp.2.2) hr
+    exact progress_drains hg hp.1 (Or.inr (Or.inr hp.2.1)) (unblocked_of_allClosed hg hp.2.2) hr
 
 /-- (a)+(d) liveness of the whole shutdown (existential form; `C13_every_maximal_run_resolves` is
 the universal one): from every reachable state in which shutdown has been
 requested, handlers are left to run and every remaining caller has completed its request
 (`RequestsDone`; trivially true of unary and server-streaming calls), the server reaches — by its own steps alone, in at most
-`weight s` of them, without any client having to go away — a state where the serve future has
+`weight s` of them, without any client having to go away and without the request timeout cutting
+anything (`drains` steps only) — a state where the serve future has
 resolved; by `C13_resolve_only_when_all_closed` every accepted call is complete there. -/
 theorem C13_shutdown_completes {b a : Bool} {s : State} (h : Reachable true b a s)
     (hreq : ShutdownRequested s) (hfree : s.freeRun = true) (hdone : RequestsDone s) :
-    ∃ ls s', (∀ l ∈ ls, l.internal = true) ∧ run s ls = some s' ∧ s'.resolved = true
-      ∧ ls.length ≤ weight s := by
+    ∃ ls s', (∀ l ∈ ls, l.internal = true ∧ l.drains = true) ∧ run s ls = some s'
+      ∧ s'.resolved = true ∧ ls.length ≤ weight s := by
   refine drain (fun s => s.cfgGraceful = true ∧ ShutdownRequested s ∧ s.freeRun = true
       ∧ RequestsDone s) ?_ ?_
     (weight s) s (Nat.le_refl _) (good_reachable h) ⟨(reachable_cfg h).1, hreq, hfree, hdone⟩
@@ -315,7 +424,7 @@ theorem C13_shutdown_completes {b a : Bool} {s : State} (h : Reachable true b a 
     · exact Or.inr (Or.inl (hm.2.1 hx))
     · exact Or.inr (Or.inr (hm.2.2.1 hx))
   · intro s hg hp hr
-    exact progress hg hp.1 hp.2.1
+    exact progress_drains hg hp.1 hp.2.1
       (fun cn hcn _ k hk _ hcan _ =>
         ⟨Or.inr hp.2.2.1, reqReady_of_reqLeft (hp.2.2.2 cn hcn k hk hcan)⟩) hr
 
@@ -329,7 +438,8 @@ Take ANY reachable state in which shutdown has been requested —
 so the signal may have fired before the call's response headers, mid-stream or as it completes —
 and a call the server has accepted there whose caller is still present.  If handlers are left to
 run, the server by its own steps reaches a state where the serve future has resolved and THIS call
-(same slot, same true outcome) has been received by its caller completely. -/
+(same slot, same true outcome — the handler's, unless the request timeout had already cut the call
+before) has been received by its caller completely. -/
 theorem C13_accepted_call_runs_to_completion {b a : Bool} {s : State} {c j : Nat} {cn : Conn}
     {k : Call} (h : Reachable true b a s) (hreq : ShutdownRequested s) (hfree : s.freeRun = true)
     (hdone : RequestsDone s)
@@ -337,19 +447,28 @@ theorem C13_accepted_call_runs_to_completion {b a : Bool} {s : State} {c j : Nat
     (hst : k.started = true) (hcan : k.cancelled = false) (hpg : cn.peerGone = false) :
     ∃ ls s' cn' k', (∀ l ∈ ls, l.internal = true) ∧ run s ls = some s' ∧ s'.resolved = true
       ∧ s'.conns[c]? = some cn' ∧ cn'.calls[j]? = some k' ∧ k'.plan = k.plan
-      ∧ (callView cn' k').got = k.plan.map toOut := by
-  obtain ⟨ls, s', hall, hrun, hres, _⟩ := C13_shutdown_completes h hreq hfree hdone
+      ∧ k'.expired = k.expired
+      ∧ (callView cn' k').got = k.outcome.map toOut
+      ∧ (k.expired = false → (callView cn' k').got = k.plan.map toOut) := by
+  obtain ⟨ls, s', halld, hrun, hres, _⟩ := C13_shutdown_completes h hreq hfree hdone
+  have hall : ∀ l ∈ ls, l.internal = true := fun l hl => (halld l hl).1
   obtain ⟨cn', k', h1, h2, h3, h4, h5, h6, _, _⟩ :=
     run_keeps_call hall hrun (KeptIn.self hc hk hcan hpg)
+  obtain ⟨cn2, k2, e1, e2, hexp⟩ := run_keeps_unexpired halld hrun hc hk hcan hpg
+  rw [h1] at e1; cases e1
+  rw [h2] at e2; cases e2
   have hg' := good_run (good_reachable h) hrun
   have hgr : s'.cfgGraceful = true := (reachable_cfg (reachable_run h hrun)).1
   have hk' := hg'.conns cn' (mem_of_getElem? h1)
   have hkm := mem_of_getElem? h2
   have hcl := hk'.resolved_closed hres hgr (hk'.hs_acc (hk'.started_hs k' hkm (h5 hst)))
   have hcomp := hk'.closed_calls hcl h4 k' hkm (h5 hst) h3
-  refine ⟨ls, s', cn', k', hall, hrun, hres, h1, h2, h6, ?_⟩
-  rw [callView_complete (hk'.calls_ok k' hkm) hcomp]
-  simp [callView, h6]
+  have hout : (callView cn' k').got = k.outcome.map toOut := by
+    rw [callView_complete (hk'.calls_ok k' hkm) hcomp, outcome_callView]
+    simp [Call.outcome, h6, hexp]
+  refine ⟨ls, s', cn', k', hall, hrun, hres, h1, h2, h6, hexp, hout, fun he => ?_⟩
+  rw [hout]
+  simp [Call.outcome, he]
 
 /-- TLS accept path (`ServerIoStream`): a failed handshake does not stop the accept loop — after
 `tlsFail c` the loop is as it was, and every other connection that could be accepted (or handed to
@@ -527,7 +646,7 @@ example : ∃ s, Reachable true true false s ∧ s.resolved = true
   cases hrun : run (init true true false) ls with
   | none => exact absurd hrun (by decide)
   | some s =>
-    refine ⟨s, reachable_run .init hrun, ?_⟩
+    refine ⟨s, reachable_run (.init false) hrun, ?_⟩
     have : (run (init true true false) ls).map
         (fun s => (s.resolved, (connViews s).any (·.accepted), (callViews s).any (·.started)))
         = some (true, true, true) := by decide
@@ -540,7 +659,7 @@ example : ∃ s, Reachable true true false s ∧ s.resolved = true
 example : ∃ s, Reachable true true false s ∧ ShutdownRequested s ∧ Unblocked s
     ∧ s.resolved = false ∧ (callViews s).any (fun v => v.started && v.got != v.plan) = true := by
   refine ⟨_, reachable_run (ls := [.offer, .loopAccept 0, .hsDone 0,
-      .issue 0 [[.hdr], [.msg 0], [.status 0]] 0, .callStart 0 0, .permit 0 0, .sigFire]) .init rfl,
+      .issue 0 [[.hdr], [.msg 0], [.status 0]] 0, .callStart 0 0, .permit 0 0, .sigFire]) (.init false) rfl,
     ?_, ?_, ?_, ?_⟩
   · exact Or.inl rfl
   · exact unblocked_of_bool (by decide)
@@ -553,14 +672,14 @@ example : ∃ s, Reachable true true false s ∧ s.loopRunning = false
     ∧ allClosed (connViews s) = true ∧ (connViews s).any (·.accepted) = true
     ∧ s.resolved = false ∧ receiverCount s = 1 := by
   refine ⟨_, reachable_run (ls := [.offer, .loopAccept 0, .hsDone 0, .sigFire, .loopSig,
-      .afterLoop, .connSig 0, .final 0, .connBreak 0]) .init rfl, ?_, ?_, ?_, ?_, ?_⟩ <;> decide
+      .afterLoop, .connSig 0, .final 0, .connBreak 0]) (.init false) rfl, ?_, ?_, ?_, ?_, ?_⟩ <;> decide
 
 -- … and those of `C13_inflight_never_dropped`: the step is the connection task seeing the signal
 example : ∃ s s' cn k, Reachable true true false s ∧ step s (.connSig 0) = some s'
     ∧ s.conns[0]? = some cn ∧ cn.calls[0]? = some k ∧ k.started = true ∧ k.cancelled = false
     ∧ cn.peerGone = false := by
   refine ⟨_, _, _, _, reachable_run (ls := [.offer, .loopAccept 0, .hsDone 0,
-      .issue 0 [[.hdr], [.status 0]] 0, .callStart 0 0, .sigFire, .loopSig, .afterLoop]) .init rfl,
+      .issue 0 [[.hdr], [.status 0]] 0, .callStart 0 0, .sigFire, .loopSig, .afterLoop]) (.init false) rfl,
     rfl, rfl, rfl, rfl, rfl, rfl⟩
 
 -- … and those of `C13_accepted_call_runs_to_completion`: the signal fires mid-stream (headers and
@@ -572,7 +691,7 @@ example : ∃ s cn k, Reachable true true false s ∧ ShutdownRequested s ∧ s.
   refine ⟨_, _, _, reachable_run (ls := [.offer, .loopAccept 0, .hsDone 0,
       .issue 0 [[.hdr], [.msg 0], [.msg 1], [.status 0]] 0, .callStart 0 0, .permit 0 0,
       .produce 0 0, .deliver 0 0, .permit 0 0, .produce 0 0, .deliver 0 0, .sigFire, .freeRun])
-      .init rfl, Or.inl rfl, rfl, requestsDone_of_bool (by decide), rfl, rfl, rfl, rfl, rfl, rfl,
+      (.init false) rfl, Or.inl rfl, rfl, requestsDone_of_bool (by decide), rfl, rfl, rfl, rfl, rfl, rfl,
       rfl⟩
 
 -- the hypotheses of `C13_every_maximal_run_resolves` are satisfiable by a non-trivial state: one
@@ -588,7 +707,7 @@ example : ∃ s, Reachable true true false s ∧ ShutdownRequested s ∧ Closeab
       .issue 0 [[.hdr, .msg 0, .status 0]] 2, .callStart 0 0, .reqSend 0 0, .reqSend 0 0,
       .issue 0 [[.hdr], [.msg 0], [.status 5]] 1, .callStart 0 1, .reqSend 0 1,
       .permit 0 0, .permit 0 1, .permit 0 1, .permit 0 1, .produce 0 1, .deliver 0 1,
-      .sigFire]) .init rfl, Or.inl rfl, closeable_of_bool (by decide), ?_, ?_, ?_, ?_⟩
+      .sigFire]) (.init false) rfl, Or.inl rfl, closeable_of_bool (by decide), ?_, ?_, ?_, ?_⟩
     <;> decide
 
 -- … and the conclusion is not vacuous either: a run of internal steps from such a state that ends
@@ -603,13 +722,55 @@ example :
         = some (true, true) := by
   decide
 
+-- the hypotheses of `C13_timeout_never_cuts_a_streaming_body` are satisfiable by the situation the
+-- theorem is about: `Server::timeout` and `max_connection_age` configured, a server-streaming call
+-- whose response head and first message are out, its `GrpcTimeout` sleep long elapsed; the run that
+-- follows has the signal, the connection task's graceful shutdown, more clock ticks and the rest of
+-- the stream.  `expire` is not enabled for that call at any point (first conjunct: at the start).
+example : ∃ s cn k ls s', Reachable true true true s ∧ s.cfgTimeout = true
+    ∧ s.conns[0]? = some cn ∧ cn.calls[0]? = some k ∧ k.started = true ∧ k.headDone = true
+    ∧ k.headersDeadline = true ∧ k.cancelled = false ∧ cn.peerGone = false
+    ∧ step s (.expire 0 0) = none
+    ∧ run s ls = some s' ∧ (∀ l ∈ ls, l ≠ .cancel 0 0 ∧ l ≠ .peerDrop 0)
+    ∧ s'.resolved = true ∧ acceptedCallsComplete (callViews s') = true := by
+  refine ⟨_, _, _, [.sigFire, .loopSig, .afterLoop, .connSig 0, .deadlineTick 0 0, .ageTick 0,
+      .connAge 0, .final 0, .permit 0 0, .produce 0 0, .deliver 0 0, .permit 0 0, .produce 0 0,
+      .deliver 0 0, .connBreak 0, .connDropWatcher 0, .resolve], _,
+    reachable_run (ls := [.offer, .loopAccept 0, .hsDone 0,
+      .issue 0 [[.hdr], [.msg 0], [.msg 1], [.status 0]] 0, .callStart 0 0, .permit 0 0,
+      .produce 0 0, .deliver 0 0, .permit 0 0, .produce 0 0, .deliver 0 0, .deadlineTick 0 0])
+      (.init true) rfl,
+    rfl, rfl, rfl, rfl, rfl, rfl, rfl, rfl, by decide, rfl, by simp, by decide, by decide⟩
+
+-- … and `C13_timeout_fires_only_before_head` is not vacuous: with `Server::timeout` configured, a
+-- unary call whose handler has not answered when its sleep elapses IS cut (`expire` enabled); the
+-- caller then receives the server's "Timeout expired" — that is the call's true outcome
+-- (`timedOut`), the connection drains and the serve future resolves
+example :
+    let s0 := run (init true true false true) [.offer, .loopAccept 0, .hsDone 0,
+      .issue 0 [[.hdr, .msg 0, .status 0]] 0, .callStart 0 0, .sigFire, .deadlineTick 0 0]
+    let ls : List Label := [.expire 0 0, .loopSig, .afterLoop, .connSig 0, .final 0, .deliver 0 0,
+      .connBreak 0, .connDropWatcher 0, .resolve]
+    (s0.map fun s => (step s (.expire 0 0)).isSome) = some true
+    ∧ ((s0.bind (run · ls)).map fun s =>
+        (s.resolved, acceptedCallsComplete (callViews s), truthful (callViews s)))
+        = some (true, true, true)
+    ∧ ((s0.bind (run · ls)).map fun s => (callViews s).map (fun v => (v.timedOut, v.got)))
+        = some [(true, [.expired])]
+    -- without the timeout configured the same call is never cut
+    ∧ ((run (init true true false false) [.offer, .loopAccept 0, .hsDone 0,
+      .issue 0 [[.hdr, .msg 0, .status 0]] 0, .callStart 0 0, .sigFire]).map
+        fun s => ((step s (.deadlineTick 0 0)).isSome, (step s (.expire 0 0)).isSome))
+      = some (false, false) := by
+  decide
+
 -- the hypotheses of `C13_failed_handshake_keeps_accepting` are satisfiable, with something to keep
 -- accepting: connection 0 sent plain HTTP (its handshake fails), connection 1 has finished its
 -- handshake and waits in the set for the loop
 example : ∃ s, Reachable true true false s ∧ (step s (.tlsFail 0)).isSome = true
     ∧ (step s (.loopAccept 1)).isSome = true := by
   refine ⟨_, reachable_run (ls := [.offerTls false true, .tlsTake 0, .offerTls true false,
-      .tlsTake 1, .tlsDone 1]) .init rfl, ?_, ?_⟩ <;> decide
+      .tlsTake 1, .tlsDone 1]) (.init false) rfl, ?_, ?_⟩ <;> decide
 
 -- a hyper that is NOT the model's and still satisfies the contract: one that never completes a
 -- handshake and never accepts a stream (the contract asks for neither) — so the contract is
